@@ -19,7 +19,12 @@ TECH = {
     "C02": "Verus closed-fact obligations per cache row / exponent / threshold",
     "C03": "Verus function contracts on extracted kernels + row obligations + Kani full-domain contracts",
     "C04": "Kani contracts: full-domain kernels, bounded parser-vs-reference-scanner",
-    "C05": "Verus closed-fact obligations per radix row",
+    "C05": "Verus closed-fact obligations per radix row + Kani function contract on binary()/slow_binary() and string-level contracts against an exact evaluator",
+    "C06": "Kani full-domain (every finite f32) contracts on the real power-of-two writers against an exact evaluator; write/parse round trip",
+    "C08": "Kani full-domain integer round trips + composition of writer/parser contracts through the reference grammar",
+    "C13": "Kani relational contracts (separator format vs separator-free format) + position grammar per flag combination",
+    "C14": "Kani bounded contracts on the emit functions: output re-read by the reference tokenizer",
+    "C17": "Kani full-domain (8/16-bit) facade equality + ASCII postconditions of the writer contracts",
     "C09": "Verus in-bounds + frame obligations on extracted writers; Kani pointer checks on the real unsafe code",
     "C12": "Kani bounded contracts: tokenizer vs reference grammar per instantiated flag set",
     "C15": "Kani bounded contracts: special matcher vs reference; full-domain kernel contract",
